@@ -19,6 +19,20 @@ CLAIMED = {
         design='3/C18'),
 }
 
+CLAIMED['C06'] = dict(
+    text='Munkres.tla models compute() step by step (pad, steps 1-6 with the scan orders of the code, collect, reuse); '
+         'TLC checks on every matrix <= 3x3 over {0,1,2} (thorough: also every 4xk/kx4 over {0,1}) that the result is a complete '
+         'minimum-cost matching (against brute force), the dual-feasibility invariant, the duality certificate, that '
+         'the caller matrix is untouched, termination (liveness under weak fairness) and reuse. Every enumerated matrix '
+         'is replayed through the real Munkres.compute; results on random matrices up to 10x10 (integer, tie-heavy, '
+         'dyadic-float, grade-like, reused solver objects, under a wall-clock alarm) are validated by the TLC trace '
+         'spec MunkresResultTrace (brute force up to 4x4, LP-duality certificate above); step states observed through '
+         'instance-level wrappers are validated against the step model by MunkresStepTrace (drift only).',
+    note='Trusted: TLC; the adapter\'s float->integer scaling (only exactly representable float matrices are generated); '
+         'the dual certificate is checked by the spec, its producer is untrusted.',
+    technique='TLA+ step model of the Hungarian solver checked by TLC (safety+liveness); TLC trace validation of real compute() results and step states',
+    design='3/C06')
+
 REASON_PENDING = 'check not built yet in this revision; the design (DESIGN.md section 3) covers it and it will be claimed once its spec and binding exist'
 
 
